@@ -737,11 +737,16 @@ class Instruction:
         """
         # TODO: update reference
         # assert old in self._var_map.values()
+        replaced = False
         for name in self._var_map:
             if self._var_map[name] is old:
-                self.del_use(old)
                 self._var_map[name] = new
-                self.add_use(new)
+                replaced = True
+        # An instruction can use the same value more than once (x * x),
+        # the usage must be released only once:
+        if replaced:
+            self.del_use(old)
+            self.add_use(new)
 
     def remove_from_block(self):
         for use in list(self.uses):
